@@ -27,6 +27,10 @@ type c17Scenario struct {
 	Cfg    config.PikeConfig `json:"cfg"`
 	Defect string            `json:"defect"` // "" = valid by construction
 	Sel    int               `json:"sel,omitempty"` // which element received the defect (modulo the list length)
+	// Again: the accepted configuration is saved a second time and read back -- "same": straight away;
+	// "edited": after the stored configuration was changed behind pike's back (the file edited by hand,
+	// another instance saving into the shared etcd key)
+	Again string `json:"again,omitempty"`
 }
 
 var yamlNames = []string{"n1", "cache", "yes", "null", "~", "1e3", "0x1", "a: b", "- x", "#c", " lead", "trail ", "'q'", `"dq"`, "名字", "on", "123", "true", "x", "abcdefghijklmnopqrst", "a\tb", "{a}", "[b]", "a,b", "%p", "@at", "`bt`", "!tag", "&anchor", "*alias", "|", ">", "key: 'v'", "N", "off", "1_000", "0o7", ".5", "-", "? q"}
@@ -355,10 +359,13 @@ func c17Client(t interface{ Fatalf(string, ...interface{}) }) {
 			t.Fatalf("tempdir: %v", err)
 		}
 		c17File = filepath.Join(dir, "pike.yml")
-		if err := config.InitDefaultClient(c17File); err != nil {
-			t.Fatalf("init config client: %v", err)
-		}
 	})
+	// every case starts with a freshly opened client on an empty file, so that a case is a
+	// function of its scenario alone
+	_ = os.Remove(c17File)
+	if err := config.InitDefaultClient(c17File); err != nil {
+		t.Fatalf("init config client: %v", err)
+	}
 }
 
 // normalise: nil == empty, display-only fields dropped
@@ -466,6 +473,32 @@ func execC17(sc c17Scenario) *vstat.Outcome {
 	if !reflect.DeepEqual(a, b) {
 		out.Violate("C17", "roundtrip", "Read(Write(c)) differs from c: %s", firstDiff(a, b))
 	}
+	if sc.Again != "" {
+		if sc.Again == "edited" {
+			if err := os.WriteFile(c17File, []byte("caches:\n- name: edited-elsewhere\n  size: 10\n  hitForPass: 5m\n"), 0o600); err != nil {
+				out.Inconclusive = true
+				return out
+			}
+			if other, err := config.Read(); err != nil || len(other.Caches) != 1 || other.Caches[0].Name != "edited-elsewhere" {
+				out.Violate("C17", "roundtrip", "the configuration file was replaced by hand but Read returns %+v (err %v)", other, err)
+				return out
+			}
+		}
+		again := cfg
+		if err := config.Write(&again); err != nil {
+			out.Violate("C17", "write-validate", "saving the same accepted configuration a second time failed: %v", err)
+			return out
+		}
+		back2, err := config.Read()
+		if err != nil {
+			out.Violate("C17", "roundtrip", "second save (%s): the configuration cannot be read back: %v", sc.Again, err)
+			return out
+		}
+		if a2, b2 := normalise(cfg), normalise(*back2); !reflect.DeepEqual(a2, b2) {
+			out.Violate("C17", "roundtrip", "the configuration was saved again (%s: the stored one had been changed in between) and Write reported success, but Read returns something else: %s", sc.Again, firstDiff(a2, b2))
+		}
+		out.Class("saved_twice_" + sc.Again)
+	}
 	quoting := false
 	check := func(s string) {
 		if s != "" && (strings.ContainsAny(s, ":#-'\"\n\t{}[],&*!|>%@`~? ") || s == "yes" || s == "null" || s == "on" || s == "true" || s == "off" || s == "N" || s[0] >= '0' && s[0] <= '9' || s[0] == '.') {
@@ -508,6 +541,7 @@ func firstDiff(a, b config.PikeConfig) string {
 
 func genC17(t *rapid.T) c17Scenario {
 	sc := c17Scenario{Cfg: genValidConfig(t)}
+	sc.Again = rapid.SampledFrom([]string{"", "", "same", "edited"}).Draw(t, "again")
 	if rapid.IntRange(0, 2).Draw(t, "withDefect") == 0 {
 		d := rapid.SampledFrom(c17Defects).Draw(t, "defect")
 		sc.Sel = rapid.IntRange(0, 11).Draw(t, "defectAt")
